@@ -39,6 +39,9 @@ pub struct MFrame {
     pub tags: Option<Vec<String>>,
     pub labels: Option<Vec<String>>,
     pub acl_allow: Option<bool>,
+    /// the put asked for background enrichment (instant index + embedding): the document's id
+    /// must be what the enrichment queue names
+    pub queued: bool,
     /// caller-supplied extra metadata (Some = known exactly; chunk children: not predicted)
     pub extra: Option<std::collections::BTreeMap<String, String>>,
     /// payload stored whole (not a chunk parent)
@@ -73,6 +76,14 @@ pub struct Model {
     pub batch_skip_sync: bool,
     pub undurable_from: Option<usize>,
     pub lex_enabled: bool,
+    /// caller-made memory cards in insertion order, with the id the library assigned
+    pub cards: Vec<(u64, crate::ops::CardSpec)>,
+    /// how many of them a commit has persisted (cards are not logged: they reach the file at commit)
+    pub cards_committed: usize,
+    /// (canonical name lower-case, kind) of mesh nodes added; edges as (from, to, link) name pairs
+    pub mesh_nodes: Vec<(String, u8)>,
+    pub mesh_edges: Vec<(String, String, u8)>,
+    pub mesh_committed: (usize, usize),
 }
 
 impl Model {
@@ -120,12 +131,27 @@ impl Model {
                 }
             }
         }
+        // every path that applies the log also writes the in-memory tracks (or, on open, has
+        // nothing un-persisted left: see lose_uncommitted_tracks)
+        self.tracks_committed();
     }
     /// The state a reopen must show: everything acknowledged, applied.
     pub fn recovered(&self) -> Model {
         let mut m = self.clone();
+        m.lose_uncommitted_tracks();
         m.apply_pending();
         m
+    }
+    /// Commit / drop / automatic checkpoint: the in-memory tracks reach the file.
+    pub fn tracks_committed(&mut self) {
+        self.cards_committed = self.cards.len();
+        self.mesh_committed = (self.mesh_nodes.len(), self.mesh_edges.len());
+    }
+    /// Process death: cards and mesh entries added since the last commit are gone.
+    pub fn lose_uncommitted_tracks(&mut self) {
+        self.cards.truncate(self.cards_committed);
+        self.mesh_nodes.truncate(self.mesh_committed.0);
+        self.mesh_edges.truncate(self.mesh_committed.1);
     }
     pub fn active_committed(&self, id: u64) -> bool {
         self.frames.get(id as usize).is_some_and(|f| f.st == St::Active)
@@ -135,7 +161,7 @@ impl Model {
         for f in &self.frames {
             h.update(format!("{}|{:?}|{:?}|{}|{:?}|{:?}|{:?}|{}\n", f.id, f.uri, f.st, f.role, f.parent, f.supersedes, f.superseded_by, f.token).as_bytes());
         }
-        h.update(format!("p{}", self.pending.len()).as_bytes());
+        h.update(format!("p{}c{}m{}", self.pending.len(), self.cards.len(), self.mesh_nodes.len()).as_bytes());
         h.finalize().to_hex()[..12].to_string()
     }
 }
